@@ -545,6 +545,11 @@ impl<'l, Data> EventLoop<'l, Data> {
             }
         }
 
+        // The first error reported while processing this batch. It is returned once the whole batch
+        // has been processed, so that a failing source cannot make the other sources lose the events
+        // (notably the timer expirations) that were already collected for them.
+        let mut first_error = None;
+
         for event in self.synthetic_events.drain(..).chain(events) {
             // Get the registration token associated with the event.
             let reg_token = event.token.inner.forget_sub_id();
@@ -569,10 +574,14 @@ impl<'l, Data> EventLoop<'l, Data> {
                     .inner
                     .pending_action
                     .replace(PostAction::Continue);
-                let mut ret = ret?;
-                if let PostAction::Continue = ret {
-                    ret = pending_action;
-                }
+                let ret = match ret {
+                    Ok(PostAction::Continue) => pending_action,
+                    Ok(ret) => ret,
+                    Err(err) => {
+                        first_error.get_or_insert(err);
+                        PostAction::Continue
+                    }
+                };
 
                 match ret {
                     PostAction::Reregister => {
@@ -580,7 +589,7 @@ impl<'l, Data> EventLoop<'l, Data> {
                             source = reg_token.get_id(),
                             "Postaction reregister for source"
                         );
-                        disp.reregister(
+                        if let Err(err) = disp.reregister(
                             &mut self.handle.inner.poll.borrow_mut(),
                             &mut self
                                 .handle
@@ -588,14 +597,16 @@ impl<'l, Data> EventLoop<'l, Data> {
                                 .sources_with_additional_lifecycle_events
                                 .borrow_mut(),
                             &mut TokenFactory::new(reg_token),
-                        )?;
+                        ) {
+                            first_error.get_or_insert(err);
+                        }
                     }
                     PostAction::Disable => {
                         trace!(
                             source = reg_token.get_id(),
                             "Postaction unregister for source"
                         );
-                        disp.unregister(
+                        if let Err(err) = disp.unregister(
                             &mut self.handle.inner.poll.borrow_mut(),
                             &mut self
                                 .handle
@@ -603,7 +614,9 @@ impl<'l, Data> EventLoop<'l, Data> {
                                 .sources_with_additional_lifecycle_events
                                 .borrow_mut(),
                             RegistrationToken::new(reg_token),
-                        )?;
+                        ) {
+                            first_error.get_or_insert(err);
+                        }
                     }
                     PostAction::Remove => {
                         trace!(source = reg_token.get_id(), "Postaction remove for source");
@@ -644,7 +657,10 @@ impl<'l, Data> EventLoop<'l, Data> {
             }
         }
 
-        Ok(())
+        match first_error {
+            Some(err) => Err(err),
+            None => Ok(()),
+        }
     }
 
     fn dispatch_idles(&mut self, data: &mut Data) {
